@@ -560,6 +560,11 @@ def running_rule(run, f, rid_inc, rid_dec, rid_rmw):
             if want_dec:
                 okd = len(decs) == 1 and decs[0][2] in ("fetch_sub", "fetch_update") and not cfg.in_cycle(decs[0][0])
                 # on every path of the arm where a current pool exists; allow the `if let Some(pool)` miss
+                if okd and decs[0][2] == "fetch_sub":
+                    # the listener is attached to every coroutine of the pool's scheduler, only submit_co counts:
+                    # an uncounted coroutine finishing at running == 0 must not wrap the counter
+                    okd = False
+                    run.fail(rid_dec, "on_state_changed/%s/non-saturating" % v, b.loc(decs[0][1]["line"]), "running is decremented with a plain fetch_sub: a coroutine that was never counted (submitted through the scheduler interface, or stolen before it was counted) finishing at running == 0 wraps the counter to usize::MAX", counts_as_instance=False)
                 if okd and decs[0][2] == "fetch_update":
                     amt = None
                     for c in f.closures_of(b):
